@@ -173,6 +173,61 @@ elif m == 'P1':  # verify.Handler encodes into a pooled bytes.Buffer and puts it
 }
 
 var reportBufs = sync.Pool{New: func() interface{} { return new(bytes.Buffer) }}''')
+elif m == 'Q1':  # martianhttp.Modifier shares one tree walk between concurrent queries: a query that arrives while a walk
+    # is in progress waits for that walk's result (which may predate failures recorded before this query began)
+    sub('martianhttp/martianhttp.go', '''	reqmod martian.RequestModifier
+	resmod martian.ResponseModifier
+}''', '''	reqmod martian.RequestModifier
+	resmod martian.ResponseModifier
+
+	vmu    sync.Mutex
+	vcond  *sync.Cond
+	walk   [2]bool
+	walks  [2]int
+	result [2]error
+}
+
+// shared runs walk unless one is in progress for that side, in which case it waits for that one's result.
+func (m *Modifier) shared(side int, walk func() error) error {
+	m.vmu.Lock()
+	if m.vcond == nil {
+		m.vcond = sync.NewCond(&m.vmu)
+	}
+	if m.walk[side] {
+		n := m.walks[side]
+		for m.walks[side] == n {
+			m.vcond.Wait()
+		}
+		err := m.result[side]
+		m.vmu.Unlock()
+		return err
+	}
+	m.walk[side] = true
+	m.vmu.Unlock()
+
+	err := walk()
+
+	m.vmu.Lock()
+	m.walk[side], m.result[side] = false, err
+	m.walks[side]++
+	m.vcond.Broadcast()
+	m.vmu.Unlock()
+	return err
+}''')
+    sub('martianhttp/martianhttp.go', '''func (m *Modifier) VerifyRequests() error {
+	m.mu.RLock()''', '''func (m *Modifier) VerifyRequests() error {
+	return m.shared(0, m.verifyRequests)
+}
+
+func (m *Modifier) verifyRequests() error {
+	m.mu.RLock()''')
+    sub('martianhttp/martianhttp.go', '''func (m *Modifier) VerifyResponses() error {
+	m.mu.RLock()''', '''func (m *Modifier) VerifyResponses() error {
+	return m.shared(1, m.verifyResponses)
+}
+
+func (m *Modifier) verifyResponses() error {
+	m.mu.RLock()''')
 elif m == 'G1':  # reset handler resets before it looks at the method
     sub('verify/verify_handlers.go', '''func (h *ResetHandler) ServeHTTP(rw http.ResponseWriter, req *http.Request) {
 	if req.Method != "POST" {''', '''func (h *ResetHandler) ServeHTTP(rw http.ResponseWriter, req *http.Request) {
